@@ -651,7 +651,7 @@ class Unit:
             names = set(opts['rules'].split(',')) if opts['rules'] != 'none' else set()
         body = self.apply_rules(body, 'sig', names, name)
         body = re.sub(r'\n[ \t]*(\n[ \t]*)+', '\n', body)
-        if it.kind == 'struct':
+        if it.kind == 'struct' and opts.get('nopub') != '1':
             body = self.pub_fields(body)
         if fields.strip():
             k = body.rstrip().rfind('}')
